@@ -398,3 +398,9 @@ Fixpoint mdvd_loop (lines : list str) (fps : Z * Z) (acc : list rcap) : result (
 
 Definition mdvd_read (content : str) : result (list rcap) :=
   no_captions_if_empty (mdvd_loop (splitlines content) (25, 1) []).
+
+(* ---- pre-fix variant, kept on record (not used by the oracle) ------------------------------ *)
+(* before `fix: DFXP clock-time fraction with more than 3 digits was scaled as milliseconds`:
+   int(sub_frames.ljust(3, '0')) * 1000 *)
+Definition dfxp_fraction_unfixed (fr : str) : result Z :=
+  do n <- py_int (ljust 3 48 fr); Ok (n * 1000).
